@@ -106,6 +106,34 @@ func c10Encoders(c *run.C) {
 			return
 		}
 	}
+	// ... and the same through the library's own parser (the reference
+	// decoders forgive what their specification forgives, e.g. encoding/json
+	// replaces raw invalid UTF-8; a consumer of the library reads its own
+	// parser's events)
+	for k, buf := range [][]byte{wa.Buf, wb.Buf} {
+		how := [2]string{"extended events", "the expansion"}[k]
+		m, perr := parseWholeGuarded(c, cd, buf)
+		if m == nil {
+			return
+		}
+		if perr != nil {
+			c.Violationf("invalid-output", cd.Name+":own-parser-rejects", "%s parser rejects what the encoder wrote through %s: %v\nbytes=%s\nstreams=%v", cd.Name, how, perr, hexs(buf), streams)
+			return
+		}
+		vs, err := m.Events.Values()
+		if err != nil || len(vs) != len(streams) {
+			c.Violationf("mismatch", cd.Name+":own-parser-value-count", "%s: %d values (%v) parsed back from what was written through %s, %d written\nbytes=%s", cd.Name, len(vs), err, how, len(streams), hexs(buf))
+			return
+		}
+		for i := range vs {
+			want := val.Norm(cd.Name, streams[i].Value(), true)
+			if d := val.Equal(want, vs[i], val.Mode(cd.Name)); d != "" {
+				c.Violationf("mismatch", cd.Name+":own-parser-value", "%s encoder: value #%d written through %s is parsed back differently by the %s parser: %s\nbytes=%s", cd.Name, i, how, cd.Name, d, hexs(buf))
+				return
+			}
+		}
+		c.Observe("own_parser_comparisons", 1)
+	}
 	if hook.Enabled {
 		da, db := hook.Depths(va), hook.Depths(vb)
 		if !reflect.DeepEqual(da, db) {
